@@ -24,8 +24,8 @@ ID = "C18"
 LEVEL_TEXT = ("Theorems over all class tables (any number of classes, any bodies, any MRO lists), for each of the three shapes the merging code of "
               "extensions/dataclasses.py can have (the shape of the tree under test is read off its source on every run): the __init__ Griffe synthesises for a "
               "decorated class without a hand-written __init__ has exactly the parameters (names, order, kind, required-ness) of the one CPython's dataclasses "
-              "module generates, modulo the decidable known-gap predicates that remain in that shape (FlatFilterFirst = the tree today: F2 F3 F4 F6 F7; "
-              "FlatFilterLast = F3 repaired: F2 F4 F6 F7; Accumulated = F3 and F6 repaired: F2 F4 F7), each refuted by a computed witness; in the Accumulated shape "
+              "module generates, modulo the decidable known-gap predicates that remain in that shape (FlatFilterFirst = before the repairs: F2 F3 F4 F6 F7; "
+              "FlatFilterLast = F3 repaired: F2 F4 F6 F7; Accumulated = F3 and F6 repaired, the tree since 51129ce / 08abe96: F2 F4 F7), each refuted by a computed witness; in the Accumulated shape "
               "names, order and kinds are CPython's for every hierarchy with no hypothesis on field forms or overrides (F2 only changes required-ness); for "
               "single-inheritance tables of any depth F6 is proved impossible; the constructor PRESENTED for a class (Class.parameters, the only one a class inheriting "
               "its __init__ has) is provided by the same class as in CPython and equal when the providers are gap-free; the extension as a state machine (memo of "
@@ -50,8 +50,11 @@ LEVEL_NOTE = ("Trusted: Coq kernel, extraction, the renderer structure->source t
               "with a recorder extension that observes exactly that at on_package_loaded; the table-level model takes the MRO over all bases. Finding C18-F10 (star import re-binding `dataclass`) is classified by a layout "
               "predicate in the harness that is compared with the layout model on every case, and accepted only when the table-level "
               "model applied to the table with those decorators dropped reproduces everything Griffe presents. Loading a package before the package its bases come from is not generated "
-              "(the bases are unresolvable then; not a defect). The theorems for the FlatFilterLast / Accumulated shapes describe the two fix commits prepared in build/fix-C18; "
-              "until they land the tree is FlatFilterFirst and F3, F6 stay known findings.")
+              "(the bases are unresolvable then; not a defect). The repairs of F3 and F6 have landed (the translator finds the Accumulated shape); the theorems for the two older shapes "
+              "stay so that a tree that goes back to them is still described. The helper names may reach a module by any one-hop spelling (direct, module, module alias, `as` alias: all recognised), "
+              "through a re-exporting module of the package or a star import (finding F10 for dataclass / field / KW_ONLY; ClassVar stays recognised, by its last name - translated from Expr.is_classvar); "
+              "__post_init__ bodies and imports inside class bodies are rendered (no model counterpart needed: neither is a field for either side); while the tree still asks an imported class-body name "
+              "for its kind (translated flag skips_alias_members = false) a raised load on such a class is the known finding F11.")
 MODEL = ("Model.C18_main", "run_C18")
 MODEL_TARGETS = ["Model/C18_main.vo"]
 COQ_TARGETS = ["Proofs/C18_dataclass.vo", "Proofs/C18_modes.vo", "Proofs/C18_machine.vo", "Proofs/C18_presented.vo", "Proofs/C18_top.vo", "Proofs/C18_order.vo", "Proofs/C18_layout.vo"]
@@ -63,7 +66,9 @@ RULE = ("systematic: every (parent decorator, child decorator) pair over {undeco
         "same-package star import with/without __all__, or re-export through __init__) or cross-package layout (12% + a dedicated stream with 30% InitVar fields: 2-3 packages a<-b<-c loaded in dependency order "
         "by ONE GriffeLoader, bases by from-import / re-export / star import); history stream: 2-3 versions of one package (same package and class names) loaded through ONE shared "
         "griffe.load_extensions() container, each version compared with CPython and the whole history with the model's state machine; `from __future__ import annotations` (9%), "
-        "decorator/field/KW_ONLY/InitVar spelled bare or through `dataclasses.`. Every case also runs the state machine with the walk order of its layout (modules in random order). "
+        "every helper name (dataclass, field, KW_ONLY, InitVar, ClassVar) spelled per site bare / through the module / a module alias / an `as` alias; in 25 % of the package layouts some of them "
+        "reach the modules through the package's _compat module (explicit re-export import or star import); ClassVar from `from typing import *` (8 %); 15 % of the decorated classes have a "
+        "__post_init__ assigning declared fields (any form) and new attributes; un-annotated class attributes are sometimes bound by an import inside the class body. Every case also runs the state machine with the walk order of its layout (modules in random order). "
         "CPython-rejected modules are counted and compared with the model's rejection. non-trivial = at least one decorated class with "
         "at least one annotated statement; distinct by rendered source")
 TRUSTED = ["renderer: harness turns the generated class table into source text; the same table is the model input (abstraction = generator structure)"]
